@@ -94,6 +94,7 @@ class InitialMesh:
                 self.nbrs[edge] = elem
 
     def vertex_from_coords(self, xy):
+        xy = np.asarray(xy, dtype=float).flatten()
         result = None
         for vtx in self.vertices:
             if isclose(vtx.x, xy[0]) and isclose(vtx.y, xy[1]):
@@ -212,8 +213,8 @@ class InitialMesh:
                     if va[n_axis] - eps * abs(va[n_axis]) <= v0[n_axis] <= v1[
                             n_axis] <= vb[n_axis] + eps * abs(vb[n_axis]):
                         # If this elements edge coincides with v0, v1, return!
-                        if isclose(va[n_axis], v0[n_axis]) and isclose(
-                                v1[n_axis], vb[n_axis]):
+                        if isclose(va[n_axis, 0], v0[n_axis, 0]) and isclose(
+                                v1[n_axis, 0], vb[n_axis, 0]):
                             return elem
                         parent = elem
 
